@@ -1,4 +1,5 @@
 import MicroHttp.Props.C01
+import MicroHttp.Props.C01Buffer
 #print axioms MicroHttp.C01.tryRead_err
 #print axioms MicroHttp.C01.tryRead_eof
 #print axioms MicroHttp.C01.tryRead_refines
@@ -6,3 +7,8 @@ import MicroHttp.Props.C01
 #print axioms MicroHttp.C01.stream_determines
 #print axioms MicroHttp.C01.schedule_independent
 #print axioms MicroHttp.C01.feed_append
+#print axioms MicroHttp.C01.new00_abs
+#print axioms MicroHttp.C01.tryRead00_simulates
+#print axioms MicroHttp.C01.reads00_simulate
+#print axioms MicroHttp.C01.copyLoop_spec
+#print axioms MicroHttp.C01.zeroLoop_spec
